@@ -126,9 +126,13 @@ def run(specs, workdir, tier):
                    failed_checks=r['failed_checks'])
         results.append(res)
     # concrete playback for real failures
+    # (at most VEKVERIF_MAX_PLAYBACK of them, default 2: every failed harness is still reported, the counterexample of the
+    # others can be obtained with `./check <ID> --replay <file>`)
+    budget = int(os.environ.get('VEKVERIF_MAX_PLAYBACK', '2'))
     for res, s in zip(results, specs):
-        if res['status'] == 'failed' and not s.get('should_fail') and not s.get('known_failing'):
+        if res['status'] == 'failed' and not s.get('should_fail') and not s.get('known_failing') and budget > 0:
             res['concrete'] = playback(s, KDIR)
+            budget -= 1
     return results
 
 
